@@ -15,7 +15,7 @@ pub proof fn lemma_wait_fact_stable(id: PartId, r: crate::rpc::WaitRes, a: Node,
 //@ ensures#some_is_the_preimage_of_a_completed_part [C15,C01,C02,C16]
       (r is Ok && r->Ok_0 is Some) ==>
           exists|id: PartId| final(n).completed.contains_key(id) && final(n).completed[id] == r->Ok_0->0@
-//@ ensures#none_only_if_nothing_pending_or_complete [C15,C02,C05,C08,C16]
+//@ ensures#none_only_if_nothing_pending_or_complete [C15,C02,C05,C08,C16,C03]
       (r is Ok && r->Ok_0 is None) ==> nothing_live(*final(n))
 //@ closure 0
 //@ cparams p: &ListsendpaysPayments
@@ -33,7 +33,7 @@ pub proof fn lemma_wait_fact_stable(id: PartId, r: crate::rpc::WaitRes, a: Node,
       && (forall|j: int| 0 <= j < tasks.view().len() ==> (#[trigger] tasks.view()[j]).0 == part_id(PL[j]) && crate::rpc::wait_fact(tasks.view()[j].0, tasks.view()[j].1, *n))
 //@ invariant#every_pending_part_is_in_the_pending_listing [C15]
       forall|id: PartId| #![trigger n.pending.contains(id)] n.pending.contains(id) ==> listed(PL, id)
-//@ invariant#no_part_completed_unseen_between_the_two_listings [C15,C02,C05]
+//@ invariant#no_part_completed_unseen_between_the_two_listings [C15,C02,C05,C08,C16,C03]
 //    a completed part is either reported by the completed-listing (then we returned its preimage)
 //    or it was still pending when the pending-listing was taken
       forall|id: PartId| #![trigger n.completed.contains_key(id)] n.completed.contains_key(id) ==> listed(PL, id)
@@ -52,14 +52,14 @@ pub proof fn lemma_wait_fact_stable(id: PartId, r: crate::rpc::WaitRes, a: Node,
           }
       }
 //@ loop 1
-//@ invariant#while_loop
+//@ invariant#while_loop [C15,C02,C05,C08,C16,C03]
       node_wf(*n) && tg == tasks.view() && node_rely(*old(n), *n)
       && (forall|j: int| 0 <= j < tasks.view().len() ==> crate::rpc::wait_fact((#[trigger] tasks.view()[j]).0, tasks.view()[j].1, *n))
       && (forall|i: int| 0 <= i < PL.len() ==> (gone(part_id(#[trigger] PL[i]), *n)
               || exists|j: int| 0 <= j < tasks.view().len() && (#[trigger] tasks.view()[j]).0 == part_id(PL[i])))
       && (forall|id: PartId| #![trigger n.pending.contains(id)] n.pending.contains(id) ==> listed(PL, id))
       && (forall|id: PartId| #![trigger n.completed.contains_key(id)] n.completed.contains_key(id) ==> listed(PL, id))
-//@ ensures#all_results_consumed
+//@ ensures#all_results_consumed [C15,C02,C05,C08,C16,C03]
       tasks.view().len() == 0
 //@ decreases
       tasks.view().len()
